@@ -4,20 +4,24 @@
 // frame the server writes is captured. Run from props/C32.py's extra stage; the OCaml driver replays
 // the same inputs through the extracted Model/ISISSpeaker.v.
 //
-// Input:  mode=single h=<hello interval> <token>...     one server (system A), neighbor frames from outside
-//           U / D        link up / down            T        one second (routines in the model's order:
-//           F:<hex>      frame from MAC b          G:<hex>  frame from MAC c (never a hello)
-//                                                           adjacency checkers, lifetime decrement,
-//                                                           [5 s] LSP sender, PSNP sender, [h s] hello, [10 s] CSNP sender)
-//         mode=pair h=<hello interval> k=<seconds> [x=<second>:<hex> ...]
-//                        two real servers A and B back to back: every frame A writes is B's input and
-//                        vice versa (delivered at the end of the second it was written in); x = extra
-//                        frame injected into A from B's MAC at the given second
+// Input:  [v=46|64 the interface also carries an IPv6 address, after / before the IPv4 one]
+//
+//	mode=single h=<hello interval> <token>...     one server (system A), neighbor frames from outside
+//	  U / D        link up / down            T        one second (routines in the model's order:
+//	  F:<hex>      frame from MAC b          G:<hex>  frame from MAC c (never a hello)
+//	                                                  adjacency checkers, lifetime decrement,
+//	                                                  [5 s] LSP sender, PSNP sender, [h s] hello, [10 s] CSNP sender)
+//	mode=pair h=<hello interval> k=<seconds> [x=<second>:<hex> ...]
+//	               two real servers A and B back to back: every frame A writes is B's input and
+//	               vice versa (delivered at the end of the second it was written in); x = extra
+//	               frame injected into A from B's MAC at the given second
+//
 // Observation per token (single) / per second (pair):   <state>|<frames>
-//   state  = n=<mac>:<U|I|D>:<timeout>:<changed>,...;db=<id hex>:<seq>:<life>:S<ifs>:N<ifs>,...;c=<counter>
-//   frames = the frames written, LLC prefix added, grouped by PDU type (LSP, PSNP, hello, CSNP) and
-//            sorted within a type; a PSNP is given as P:<pdu len>:<source>:<entries sorted> because
-//            the order of its entries is the iteration order of a Go map
+//
+//	state  = n=<mac>:<U|I|D>:<timeout>:<changed>,...;db=<id hex>:<seq>:<life>:S<ifs>:N<ifs>,...;c=<counter>
+//	frames = the frames written, LLC prefix added, grouped by PDU type (LSP, PSNP, hello, CSNP) and
+//	         sorted within a type; a PSNP is given as P:<pdu len>:<source>:<entries sorted> because
+//	         the order of its entries is the iteration order of a Go map
 package main
 
 import (
@@ -66,12 +70,23 @@ type node struct {
 	addr  *bnet.Prefix
 	peer  ethernet.MACAddr // the MAC the neighbor's frames come from
 	taken map[*isisx.Eth]int
+	addrs []*bnet.Prefix // what the device server reports for the interface
 }
+
+// addrSet: "4" one IPv4 address, "46" / "64" an IPv6 address after / before it
+var addrSet = "4"
 
 func newNode(clk *isisx.Clock, label string, sys types.SystemID, idx uint64, lastOctet byte, helloInt int, peer ethernet.MACAddr) (*node, error) {
 	clk.SetLabel(label)
 	n := &node{label: label, sys: sys, idx: idx, peer: peer, fac: &isisx.Factory{}, devs: isisx.NewDevs(), taken: map[*isisx.Eth]int{}}
 	n.addr = bnet.NewPfx(bnet.IPv4FromOctets(169, 254, 100, lastOctet), 31).Ptr()
+	n.addrs = []*bnet.Prefix{n.addr}
+	switch addrSet {
+	case "46": // an IPv6 address alongside the IPv4 one: IS-IS for IPv4 has to see the IPv4 view only
+		n.addrs = []*bnet.Prefix{n.addr, bnet.NewPfx(bnet.IPv6FromBlocks(0xfe80, 0, 0, 0, 0, 0, 0, uint16(1+lastOctet)), 64).Ptr()}
+	case "64":
+		n.addrs = []*bnet.Prefix{bnet.NewPfx(bnet.IPv6FromBlocks(0x2001, 0xdb8, 0, 0, 0, 0, 0, uint16(1+lastOctet)), 64).Ptr(), n.addr}
+	}
 	s, err := server.New([]*types.NET{{AreaID: types.AreaID{0x49, 0}, SystemID: sys}}, n.devs, 3600)
 	if err != nil {
 		return nil, err
@@ -83,7 +98,7 @@ func newNode(clk *isisx.Clock, label string, sys types.SystemID, idx uint64, las
 	s.AddInterface(&server.InterfaceConfig{Name: "eth0", PointToPoint: true,
 		Level2: &server.InterfaceLevelConfig{HelloInterval: uint16(helloInt), HoldingTimer: hold, Metric: 10}})
 	// the device server reports the interface (down) when IS-IS subscribes
-	n.devs.Update("eth0", &isisx.Dev{Index: idx, Oper: device.IfOperDown, Addrs: []*bnet.Prefix{n.addr}})
+	n.devs.Update("eth0", &isisx.Dev{Index: idx, Oper: device.IfOperDown, Addrs: n.addrs})
 	return n, nil
 }
 
@@ -93,7 +108,7 @@ func (n *node) link(clk *isisx.Clock, up bool) {
 	if up {
 		st = device.IfOperUp
 	}
-	n.devs.Update("eth0", &isisx.Dev{Index: n.idx, Oper: st, Addrs: []*bnet.Prefix{n.addr}})
+	n.devs.Update("eth0", &isisx.Dev{Index: n.idx, Oper: st, Addrs: n.addrs})
 }
 
 func (n *node) eth() *isisx.Eth {
@@ -610,6 +625,10 @@ func runCase(id, input string) (res isisx.Result) {
 		} else {
 			toks = append(toks, t)
 		}
+	}
+	addrSet = "4"
+	if v, ok := args["v"]; ok && (v == "46" || v == "64") {
+		addrSet = v
 	}
 	h, err := strconv.Atoi(args["h"])
 	if err != nil || (h != 3 && h != 4) {
